@@ -887,15 +887,20 @@ def _to_c_expr(
                 _mark_helper("len")
                 return f"static_cast<int>(__redu_len({emit(n.args[0])}))"
             if fname == "abs" and len(n.args) == 1 and not n.keywords:
-                return f"abs({emit(n.args[0])})"
+                # Arduino's abs/min/max are macros that evaluate their arguments
+                # twice; use function templates so that every argument expression
+                # is evaluated exactly once, as in Python.
+                _mark_helper("math")
+                return f"__redu_abs({emit(n.args[0])})"
             if fname in {"max", "min"} and len(n.args) >= 1 and not n.keywords:
                 if len(n.args) == 1:
                     return emit(n.args[0])
+                _mark_helper("math")
 
                 def _fold(exprs: List[str]) -> str:
                     acc = exprs[0]
                     for sub in exprs[1:]:
-                        acc = f"{fname}({acc}, {sub})"
+                        acc = f"__redu_{fname}({acc}, {sub})"
                     return acc
 
                 return _fold([emit(arg) for arg in n.args])
